@@ -1245,6 +1245,8 @@ func BlockItemReadByBlockItemFileFuncWithRemote(
 				if err := readers.ItemFromReader(t, f, bfile.CompressFormat(), callback); err != nil {
 					return false, errors.WithMessage(err, t.String())
 				}
+
+				return true, nil
 			}
 		}
 
